@@ -19,7 +19,7 @@ class SigmaValidator:
     Exclusions can be defined to exclude validators checks for given rule identifiers.
     """
 
-    validators: set[SigmaRuleValidator]
+    validators: list[SigmaRuleValidator]
     exclusions: DefaultDict[UUID | None, set[Type[SigmaRuleValidator]]]
 
     def __init__(
@@ -28,10 +28,12 @@ class SigmaValidator:
         exclusions: dict[UUID | None, set[Type[SigmaRuleValidator]]] = dict(),
         config: dict[str, dict[str, str | int | float | bool]] = dict(),
     ):
-        self.validators = {
+        # The validators run in a fixed order (by class name), independent of set iteration order,
+        # so that the same rules always yield the issues in the same order.
+        self.validators = [
             validator(**config.get(validator_classname_to_identifier(validator.__name__), {}))
-            for validator in validators
-        }
+            for validator in sorted(set(validators), key=lambda v: (v.__module__, v.__name__))
+        ]
         self.exclusions = defaultdict(set, exclusions)
 
     @classmethod
@@ -67,7 +69,7 @@ class SigmaValidator:
                     vs.remove(vn)
                 except KeyError:
                     raise SigmaConfigurationError(
-                        f"Attempting to remove not existing validator '{ vn }' from validator set { vs }."
+                        f"Attempting to remove not existing validator '{ vn }' from validator set { sorted(vs) }."
                     )
             else:  # handle as validator name and try to add it to set.
                 vs.add(v)
